@@ -14,7 +14,8 @@
 (*            function - same number of lines; what follows it is ordinary    *)
 (*            module-level code                                               *)
 (*   ctx      a sequence of enclosing frames (function, class, if, try,      *)
-(*            with, for, while), outermost first                             *)
+(*            with, for, while, else branch, except handler, finally block,  *)
+(*            match/switch arm), outermost first                             *)
 (*   inner    one unrelated statement inside the innermost scope             *)
 (*   copies   1..MaxCopies copies separated by one blank line                *)
 (*   rename   every copy has its identifiers renamed apart                   *)
@@ -34,7 +35,10 @@ EXTENDS Naturals, Sequences, FiniteSets, TLC, Json
 
 CONSTANTS MaxDepth, MaxCopies, MaxBefore
 
-Frames == {"func", "class", "if", "try", "with", "for", "while"}
+\* else / except / finally / case: the copies stand in the SECONDARY block of a compound statement (the else branch
+\* of an if, an exception handler, a finally block, a match / switch arm), reached through `orelse`, `handlers`,
+\* `finalbody`, `cases` rather than `body` in a syntax tree
+Frames == {"func", "class", "if", "try", "with", "for", "while", "else", "except", "finally", "case"}
 Loops  == {"for", "while"}
 Kinds  == {"stmts", "method", "module", "whole", "fnbody", "split"}
 Siblings == {"none", "shadow"}
@@ -119,7 +123,7 @@ FileVerdict(g, e, len, occ, closing, reported) ==
     ELSE CopyVerdict(g, e, len, occ, CHOOSE c \in bad : \A d \in bad : c <= d, reported)
 
 \* ---- laws of the requirement, checked over the bounded space ---------------------------------------
-Geo == [filler |-> 5, hdr |-> [f \in Frames |-> IF f = "class" THEN 2 ELSE 1]]
+Geo == [filler |-> 5, hdr |-> [f \in Frames |-> IF f \in {"class", "case"} THEN 2 ELSE IF f \in {"else", "except", "finally"} THEN 3 ELSE 1]]
 E == [before |-> before, ctx |-> ctx, inner |-> inner, copies |-> copies]
 \* (1) copies are disjoint for every example length; (2) a file reporting exactly the shifted occurrences is
 \* accepted and (3) dropping one, (4) adding one inside a copy, (5) moving one by a line are all rejected.
